@@ -119,7 +119,7 @@ func (t *template) Frag(ctx context.Context) iter.Seq[string] {
 					name := named.String()
 
 					if v, ok := argSet[name]; ok {
-						if !v.IsNil() {
+						if v != nil && !v.IsNil() {
 							for code := range v.Frag(ctx) {
 								if !yield(code) {
 									return
